@@ -11,6 +11,8 @@ struct Prop {
 
 const PROPS: &[Prop] = &[
     Prop { id: "C01", level: "exploration", run: props::c01::run, replay: props::c01::replay },
+    Prop { id: "C02", level: "fault_enumeration", run: props::c02::run, replay: props::c02::replay },
+    Prop { id: "C03", level: "exploration", run: props::c03::run, replay: props::c03::replay },
 ];
 
 fn usage() -> ! {
